@@ -2027,6 +2027,45 @@ func (c *compiler) evaluateAssignableOrReference(ass ast.Assigneable, as_ref boo
 	return nil, nil, nil
 }
 
+// helper for VisitFuncCall
+// reports wether the argument for paramName is a local variable that nothing
+// but the callee can reach during the call, that is
+//   - it is not global (any function may assign globals)
+//   - it is not a reference (it may alias a global or another argument)
+//   - no other argument of the call mentions it (it might be passed as reference there)
+type identFinder struct {
+	decl  ast.Declaration
+	found bool
+}
+
+func (*identFinder) Visitor() {}
+
+func (f *identFinder) VisitIdent(e *ast.Ident) ast.VisitResult {
+	if e.Declaration == f.decl {
+		f.found = true
+		return ast.VisitBreak
+	}
+	return ast.VisitRecurse
+}
+
+func (c *compiler) isUnaliasedLocal(call *ast.FuncCall, paramName string) bool {
+	ident, ok := call.Args[paramName].(*ast.Ident)
+	if !ok {
+		return false
+	}
+	decl, ok := ident.Declaration.(*ast.VarDecl)
+	if !ok || decl.IsGlobal || c.scp.lookupVar(decl).isRef {
+		return false
+	}
+	finder := &identFinder{decl: decl}
+	for name, arg := range call.Args {
+		if name != paramName {
+			ast.VisitNode(finder, arg, nil)
+		}
+	}
+	return !finder.found
+}
+
 func (c *compiler) VisitFuncCall(e *ast.FuncCall) ast.VisitResult {
 	mangledName := c.mangledNameDecl(e.Func)
 	_, alreadyPresent := c.functions[mangledName] // retreive the function (the resolver took care that it is present)
@@ -2072,9 +2111,15 @@ func (c *compiler) VisitFuncCall(e *ast.FuncCall) ast.VisitResult {
 			}
 		} else {
 			eval, valTyp, isTemp := c.evaluate(e.Args[param.Name.Literal]) // compile each argument for the function
-			if valTyp.IsPrimitive() ||
-				(!ast.IsExternFunc(fun.funcDecl) && c.optimizationLevel >= 2 && meta.IsConst[param.Name.Literal]) {
+			isConstParam := !ast.IsExternFunc(fun.funcDecl) && c.optimizationLevel >= 2 && meta.IsConst[param.Name.Literal]
+			if valTyp.IsPrimitive() || (isConstParam && (isTemp || c.isUnaliasedLocal(e, param.Name.Literal))) {
 				val = eval
+			} else if isConstParam {
+				// the callee does not free constant parameters, but something besides the callee
+				// could change the argument during the call, so it gets a copy that is freed by the caller
+				dest := c.NewAlloca(valTyp.IrType())
+				c.deepCopyInto(dest, eval, valTyp)
+				val, _ = c.scp.addTemporary(dest, valTyp)
 			} else { // function parameters need to be copied by the caller
 				dest := c.NewAlloca(valTyp.IrType())
 				c.claimOrCopy(dest, eval, valTyp, isTemp)
